@@ -380,4 +380,15 @@ def verdictPayload (r : Rec) : Verdict → Option Payload
   | .merge m => some (if m = [] then .back 0 else .data m)
   | .refuse => none
 
+/-- the property's decision for object `oid` when transaction `T` (the transactions before it being
+    `older`) is undone while the current state is the view `V` (staged records of the open undo
+    transaction in front of the committed file): three `load` answers — right after `T`, now, and
+    right before `T` — and the resolver -/
+def verdictFor (resolve : Resolver) (V : List Rec) (T : Txn) (older : Log) (oid : Nat) : Verdict :=
+  specVerdict resolve oid (sameRev V oid (lastPos oid (flat (T :: older))))
+    (dataOf (flat (T :: older)) oid) (dataOf V oid) (dataOf (flat older) oid)
+
+/-- staged records of the open transaction `utid` are well formed relative to the committed file `F` -/
+def StagedOK (utid : Nat) (F S : List Rec) : Prop := ∀ s ∈ S, RecOK utid F s
+
 end ZodbModel.Undo
